@@ -53,9 +53,11 @@ def call_main(module, argv):
 
 def gen_argv(seed=None, width=None, length=None, p_robot=None, p_light=None, p_tile=None, p_loose=None, max_reward=None, force_down=False):
     a = ["roberta_generator.py"]
-    for flag, v in (("-s", seed), ("-w", width), ("-l", length), ("-p", p_robot), ("-q", p_light), ("-r", p_tile), ("-t", p_loose), ("-m", max_reward)):
+    for flag, v in (("--seed", seed), ("--width", width), ("--length", length), ("--prob_robot_break", p_robot),
+                    ("--prob_light_break", p_light), ("--prob_tile_break", p_tile), ("--prob_loose_tile", p_loose), ("--max_reward", max_reward)):
         if v is not None:
-            a += [flag, repr(v) if isinstance(v, float) else str(v)]
+            # --flag=value form: a value such as -inf or -1 must not be mistaken for an option by argparse
+            a.append("%s=%s" % (flag, repr(v) if isinstance(v, float) else str(v)))
     if force_down:
         a.append("-f")
     return a
